@@ -1326,3 +1326,22 @@ Proof.
       rewrite append_manifest_entries in Hin. apply in_map_iff in Hin. destruct Hin as [p [<- Hp]].
       simpl. repeat split; try reflexivity. exact Hp.
 Qed.
+
+(* ================================================================== the metadata log names superseded versions only *)
+(* Every entry of the metadata log is one of the versions committed before the current one -- with the timestamp that
+   version carried -- and never the current file itself.  (Which file IS current is decided by resolving the version
+   pointer as a hint; the log is built from that resolved version, whatever the pointer's bytes were.) *)
+Theorem mlog_names_superseded : forall t0 f0 ops e, fresh_ops f0 ops ->
+  In e (mlog (md (replay t0 f0 ops))) ->
+  In e (removelast (versions_of t0 f0 ops)) /\ snd e <> curfile (replay t0 f0 ops).
+Proof.
+  intros t0 f0 ops e Hf Hin. pose proof (grun_minv t0 f0 ops Hf) as M. rewrite <- grun_fst in *.
+  unfold versions_of, ghost_of. destruct (grun (ginit t0 f0) ops) as [st g]. simpl in *.
+  destruct M as [[[older Hold] [Hlast _]] Hne Hnd _].
+  assert (Hsup : In e (removelast (versions g))) by (rewrite Hold; apply in_or_app; right; exact Hin).
+  split; [exact Hsup|].
+  destruct (exists_last Hne) as [vs [v Hv]]. rewrite Hv in Hsup, Hlast, Hnd.
+  rewrite removelast_snoc in Hsup. rewrite last_snoc in Hlast. subst v.
+  rewrite map_app in Hnd. simpl in Hnd. destruct (NoDup_app_inv _ _ _ Hnd) as [_ [_ Hx]].
+  intro Heq. apply (Hx (curfile st)); [left; reflexivity|]. rewrite <- Heq. apply in_map. exact Hsup.
+Qed.
